@@ -106,6 +106,17 @@ fn render_container(kind: &str, types: &[String]) -> String {
     match kind {
         "contractmixed" => format!("pragma solidity 0.8.17;\nlibrary Lib {{}}\ncontract Holder {{\n{}}}\n", mixed),
         "contract" => format!("pragma solidity 0.8.17;\n\ncontract Holder {{\n{}}}\n", members),
+        // other containers before and after it in the same file (one member each: nothing to pack there): every
+        // container is judged by its own members only
+        "contractbetween" => {
+            let pre = ["uint8", "uint128", "address", "bool", "bytes4", "uint256"][types.len() * 5 % 6];
+            let post = ["bool", "uint64", "uint256", "address"][types.len() % 4];
+            format!("pragma solidity 0.8.17;\ncontract Pre {{ {} only; }} contract Bare {{ }}\ncontract Holder {{\n{}}}\ncontract Post {{ {} last; }}\n", pre, members, post)
+        }
+        "structbetween" => {
+            let pre = ["uint8", "uint128", "address", "bool", "bytes4", "uint256"][types.len() * 5 % 6];
+            format!("pragma solidity 0.8.17;\nstruct Pre {{ {} only; }} contract Has {{ {} v; }}\nstruct Rec {{\n{}}}\nstruct Post {{ {} last; }}\n", pre, pre, members, pre)
+        }
         "abstractcontract" => format!("pragma solidity 0.8.17;\n\nabstract contract Base {{\n{}}}\n", members),
         // (any white space may follow the keyword)
         "filestruct" => format!("pragma solidity 0.8.17;\n\nstruct{}Rec {{\n{}}}\n", ["\t", " ", "  "][types.len() % 3], members),
@@ -116,7 +127,7 @@ fn render_container(kind: &str, types: &[String]) -> String {
 /// line on which the container begins in the rendering above
 fn container_line(kind: &str) -> i32 {
     match kind {
-        "contract" | "abstractcontract" | "contractmixed" | "filestruct" => 3,
+        "contract" | "abstractcontract" | "contractmixed" | "filestruct" | "contractbetween" | "structbetween" => 3,
         _ => 4,
     }
 }
@@ -167,7 +178,8 @@ pub fn replay(behaviours: &str, out: &mut Outcome) {
                 sp[(idx + i * 7) % sp.len()].clone()
             })
             .collect();
-        for (kind, det) in [("contract", pack_storage), ("abstractcontract", pack_storage), ("contractmixed", pack_storage), ("filestruct", pack_struct), ("innerstruct", pack_struct)] {
+        for (kind, det) in [("contract", pack_storage), ("abstractcontract", pack_storage), ("contractmixed", pack_storage), ("filestruct", pack_struct), ("innerstruct", pack_struct),
+                            ("contractbetween", pack_storage), ("structbetween", pack_struct)] {
             let src = render_container(kind, &types);
             check_verdict(out, &src, kind, det, &sizes, &verdict, container_line(kind));
         }
